@@ -669,3 +669,7 @@ def check(run):
     r8_find_nameid_all_criteria(run)
     from ..common_rules import shared_state_rule
     shared_state_rule(run, "R9", {"ident"}, "identifier database operations")
+    from ..common_rules import derived_state_rule
+    derived_state_rule(run, "R10", "ident.IdentDB", {"db"},
+                       ["remove_remote", "remove_local"],
+                       "the identifier database")
